@@ -351,8 +351,20 @@ func GenC11(seed uint64) *Scenario {
 			probeSupi = ""
 		}
 	}
+	if idx >= C11EnumSize() && g.r.Chance(150) {
+		// cgf.enable: true — accepted creates / updates also transfer the CDR file over the cached FTP
+		// control connection, which the billing domain closes when idle and loses when it restarts
+		g.sc.Cfg.Cgf = true
+		g.sc.Cfg.CgfIdleNs = []int64{0, 400_000, 3_000_000, 1_000_000_000}[g.r.Intn(4)]
+		if g.r.Chance(500) {
+			ops = append(ops, Op{ID: g.id(), Kind: "ftprestart", Role: "setup"})
+		}
+	}
 	ops = append(ops, probe)
 	g.sc.Shape = fmt.Sprintf("state=%d probe=%s", state, probe.Sess)
+	if g.sc.Cfg.Cgf {
+		g.sc.Shape += " cgf"
+	}
 	// follow-ups: well-formed requests for the same subscriber
 	fs := probeSupi
 	if fs == "" {
@@ -964,6 +976,23 @@ func GenC09(seed uint64) *Scenario {
 			}
 		}
 		g.sc.Tasks = append(g.sc.Tasks, Task{ID: t, StartNs: proEnd + g.r.Range(0, window), Ops: ops})
+	}
+	// cgf.enable: true — every create / update also transfers the subscriber's CDR file to the
+	// billing domain over one cached FTP control connection shared by all requests; the server
+	// closes idle control connections and restarts now and then (definite errors only: the
+	// statement quantifies over schedules, not over a peer that goes silent)
+	if g.r.Chance(250) {
+		g.sc.Cfg.Cgf = true
+		g.sc.Cfg.CgfIdleNs = []int64{0, 0, 3_000_000, 40_000_000, 2_000_000_000}[g.r.Intn(5)]
+		g.sc.Shape += fmt.Sprintf(" cgf idle=%d", g.sc.Cfg.CgfIdleNs)
+		nRestart := g.r.Intn(3)
+		for i := 0; i < nRestart; i++ {
+			g.sc.Tasks = append(g.sc.Tasks, Task{ID: 100 + i, StartNs: g.r.Range(0, proEnd+window+20_000_000),
+				Ops: []Op{{ID: g.id(), Kind: "ftprestart"}}})
+		}
+		if nRestart > 0 {
+			g.sc.Shape += fmt.Sprintf(" restarts=%d", nRestart)
+		}
 	}
 	for i, d := range dupRelease {
 		d.ID = g.id()
